@@ -24,7 +24,8 @@ RULE = (
     "seeded call programs (take_step runs, advance(m), replace-last as the tempering hook does) on Gibbs, Metropolis, PCA, "
     "Hamiltonian and ensemble samplers; posteriors finite everywhere (correlated Gaussian, banana, folded gamma) in 1-5 "
     "dimensions; temperatures 1 / 3 / 7.5; bounds on and off; twin pairs built from shared input arrays; tempering runs with "
-    "2-4 chains and 10-40 exchange rounds; non-trivial = temperature != 1 or bounds or a multi-call program; "
+    "2-4 chains and 10-40 exchange rounds, one run per job with replies 35-155 ms late in reverse index order; 5-8 replicas advanced together "
+    "in a ChainPool; non-trivial = temperature != 1 or bounds or a multi-call program; "
     "distinct = distinct (sampler, configuration, program)"
 )
 ASSUMPTIONS = ["the user posterior is deterministic; recorded values are compared at 1e-12 relative (L * (1/T) versus L / T)"]
